@@ -201,6 +201,12 @@ def mutate_assignment(vals: Dict[str, Any], r: random.Random) -> List[Tuple[str,
         out.append(("missing", delp(vals, path)))
         for w in r.sample(codecgen.WRONG_POOL, 3):
             out.append(("wrong-type", setp(vals, path, lambda _x, w=w: w)))
+        # a number may always turn out not to be one
+        cur: Any = vals
+        for k in path:
+            cur = cur[k]
+        if isinstance(cur, (int, float)) and not isinstance(cur, bool):
+            out.append(("non-finite", setp(vals, path, lambda _x, w=r.choice(codecgen.NON_FINITE): w)))
     for path in paths:
         # unknown parameter inside every dict
         def add_unknown(x: Any) -> Any:
